@@ -17,6 +17,7 @@ fn main() {
         Some("replay") => plan::cmd_replay(&args[2..]),
         Some("big-child") => big::cmd_child(&args[2..]),
         Some("run") => plan::cmd_run(&args[2..]),
+        Some("trace") => plan::cmd_trace(&args[2..]),
         _ => {
             eprintln!("usage: ppgmc check <ID> --tier quick|thorough | replay <file> | run <family> ...");
             2
